@@ -3,6 +3,7 @@ verdicts, evidence.  Exit codes: 0 held, 1 violation (with VIOLATION line), 2 to
 import json, os, re, subprocess, sys, time, hashlib, shutil, random
 
 VERIF = os.path.dirname(os.path.dirname(os.path.abspath(__file__)))
+REPO = os.environ.get("VERIF_REPO", "/repo")      # the variable: development only (tools/mutate.py works on copies)
 SPEC = os.path.join(VERIF, "spec")
 HARNESS = os.path.join(VERIF, "harness")
 WORK = os.path.join(VERIF, "work")          # scratch, ignored by git
@@ -39,7 +40,7 @@ def build_harness():
         return
     lock = os.path.join(HARNESS, "Cargo.lock")
     if not os.path.exists(lock):
-        shutil.copy("/repo/Cargo.lock", lock)
+        shutil.copy(os.path.join(REPO, "Cargo.lock"), lock)
     env = dict(os.environ, CARGO_NET_OFFLINE="true")
     t0 = time.time()
     p = subprocess.run(["cargo", "build", "--offline", "--bins"], cwd=HARNESS, env=env, capture_output=True, text=True)
